@@ -362,6 +362,8 @@ def mode_components(req):
                 r = ''.join('%06x' % x for x in qmap_ser(U.query_to_map(un6(a[0]))))
             elif f == 'dec':
                 r = h6('{}'.format(a[0]))
+            elif f == 'unesc':
+                r = urllib.parse.unquote_to_bytes(un6(a[0])).hex()
             else:
                 raise RuntimeError('unknown component ' + f)
             out.append({'ok': r})
@@ -400,32 +402,49 @@ def mode_join(req):
 # finite facts about the interpreter the model hard-codes / the theorems assume
 # --------------------------------------------------------------------------
 def mode_sample(req):
-    import unicodedata
+    """finite facts about the interpreter the model hard-codes, and the oracle hypotheses of the
+    C10 theorems (enc_ok, lower_ok, idna_ok, ipv6_ok, unquote_ok) sampled on the real library"""
     res = {}
     res['spaces'] = [c for c in range(0x110000) if chr(c).isspace()]
-    res['lower_to_ascii'] = [c for c in range(128, 0x110000) if any(ord(x) < 128 for x in chr(c).lower())]
     res['hierarchy'] = [issubclass(UnicodeError, ValueError), issubclass(UnicodeEncodeError, UnicodeError),
                         issubclass(UnicodeDecodeError, UnicodeError),
                         issubclass(ipaddress.AddressValueError, ValueError),
                         not issubclass(LookupError, ValueError), not issubclass(RecursionError, ValueError)]
-    # oracle hypotheses of the theorems, sampled on the strings the generator produced
     bad = []
+    counts = {}
+    # lower_ok: str.lower() never produces a C0 control (every code point, and every generated scheme)
+    n = 0
+    for c in range(0x20, 0x110000):
+        n += 1
+        if any(ord(x) < 0x20 for x in chr(c).lower()):
+            bad.append(['lower-produces-control', '%06x' % c])
+    for hx in req.get('lower', []):
+        s = un6(hx)
+        n += 1
+        if all(ord(x) >= 0x20 for x in s) and any(ord(x) < 0x20 for x in s.lower()):
+            bad.append(['lower-produces-control', hx])
+    counts['lower_ok'] = n
+    # idna_ok: no C0 control in the output for input without one
+    n = 0
     for hx in req.get('idna', []):
         s = un6(hx)
         try:
             r = s.encode('idna')
         except UnicodeError:
             continue
-        if any(b < 0x21 and b != 0x20 for b in r) or any(b > 0x7f for b in r):
-            bad.append(['idna-output-range', hx])
+        n += 1
+        if all(ord(x) >= 0x20 for x in s) and any(b < 0x20 for b in r):
+            bad.append(['idna-output-control', hx])
+    counts['idna_ok'] = n
+    # ipv6_ok: alphabet and fixpoint
+    n = 0
     for hx in req.get('ipv6', []):
         s = un6(hx)
-        if '%' in s:
-            continue
         try:
             r = ipaddress.IPv6Address(s).compressed
         except ipaddress.AddressValueError:
             continue
+        n += 1
         if any(c not in '0123456789abcdef:.' for c in r):
             bad.append(['ipv6-output-alphabet', hx])
         try:
@@ -433,17 +452,65 @@ def mode_sample(req):
                 bad.append(['ipv6-not-fixpoint', hx])
         except ipaddress.AddressValueError:
             bad.append(['ipv6-output-rejected', hx])
-    for hx in req.get('userinfo', []):
+    counts['ipv6_ok'] = n
+    # enc_ok: per codec - ASCII identity and bytes >= 0x40 for a non-ASCII character over the whole BMP + astral sample;
+    # character-wise on every string the run encoded
+    n = 0
+    for name in req.get('codecs', []):
+        for c in list(range(0x80)) + list(range(0x80, 0x10000)) + list(range(0x10000, 0x110000, 257)):
+            ch = chr(c)
+            try:
+                b = ch.encode(name)
+            except UnicodeError:
+                continue
+            n += 1
+            if c < 0x80:
+                if b != bytes([c]):
+                    bad.append(['enc-not-ascii-identity:' + name, '%06x' % c])
+            elif not b or min(b) < 0x40:
+                bad.append(['enc-non-ascii-char-gives-low-byte:' + name, '%06x' % c])
+    for name, hx in req.get('enc_texts', []):
         s = un6(hx)
         try:
-            s.encode('utf-8')
+            b = s.encode(name)
         except UnicodeError:
             continue
+        n += 1
+        try:
+            if b != b''.join(ch.encode(name) for ch in s):
+                bad.append(['enc-not-character-wise:' + name, hx])
+        except UnicodeError:
+            bad.append(['enc-not-character-wise:' + name, hx])
+    counts['enc_ok'] = n
+    # unquote_ok: unquote(a) = unquote_to_bytes(a).decode(enc, 'replace') on ASCII text; codec round trip on what was encoded
+    n = 0
+    for name, hx in req.get('unq', []):
+        a = un6(hx)
+        if not a.isascii() or '%' not in a:
+            continue
+        n += 1
+        if _orig_pd(a, encoding=name, errors='replace') != urllib.parse.unquote_to_bytes(a).decode(name, 'replace'):
+            bad.append(['unquote-not-decode-of-unquote_to_bytes:' + name, hx])
+    for name, hx in req.get('userinfo', []):
+        t = un6(hx)
+        try:
+            b = t.encode(name)
+        except UnicodeError:
+            continue
+        n += 1
+        try:
+            if b.decode(name, 'replace').encode(name) != b:
+                bad.append(['codec-roundtrip:' + name, hx])
+        except UnicodeError:
+            bad.append(['codec-roundtrip:' + name, hx])
         for st in (U.USERNAME_ENCODE_SET, U.PASSWORD_ENCODE_SET):
-            e = U.uppercase_percent_encoding(_orig_pe(s, st))
-            if _orig_pd(e, encoding='utf-8') != s:
-                bad.append(['unquote-does-not-invert-utf8-percent-encoding', hx])
+            e = U.uppercase_percent_encoding(_orig_pe(t, st, name))
+            n += 1
+            if '%' in e and _orig_pd(e, encoding=name, errors='replace') != urllib.parse.unquote_to_bytes(e).decode(name, 'replace'):
+                bad.append(['unquote-not-decode-of-unquote_to_bytes:' + name, h6(e)])
+    counts['unquote_ok'] = n
     res['bad'] = bad
+    res['counts'] = counts
     return res
 
 
